@@ -4,7 +4,16 @@ package main
 // by VERIF_SEED so that a disagreement replays exactly.
 type Rng struct{ s uint64 }
 
-func NewRng(seed uint64) *Rng { return &Rng{s: seed*0x9E3779B97F4A7C15 + 0x1234567} }
+func NewRng(seed uint64) *Rng {
+	// scramble the seed so that consecutive seeds give unrelated streams (the
+	// generator state advances by a constant, so seed*gamma would only shift the stream)
+	z := seed + 0x632BE59BD9B4E019
+	z = (z ^ (z >> 30)) * 0xBF58476D1CE4E5B9
+	z = (z ^ (z >> 27)) * 0x94D049BB133111EB
+	z ^= z >> 31
+	z = (z ^ (z >> 33)) * 0xff51afd7ed558ccd
+	return &Rng{s: z ^ (z >> 29)}
+}
 
 func (r *Rng) U64() uint64 {
 	r.s += 0x9E3779B97F4A7C15
